@@ -297,6 +297,71 @@ def c06_defaults(sig: int, s0: bool, s1: bool, s2: bool, s3: bool, so: bool, e0:
     return False
 
 
+def c06_asym(sig: int, a0: int, a1: int, a2: int, a3: int, b0: int, b1: int, b2: int, b3: int, ao: int, bo: int, v: int) -> bool:
+  """
+  Two configurations of one signature set *different* argument subsets; per parameter each side is 0 = unset,
+  1 = explicitly its default (or value v if it has none), 2 = a non-default value: == holds iff every parameter has
+  the same effective value on both sides, and it is symmetric.
+  require: 0 <= sig < 324 and 0 <= a0 <= 2 and 0 <= a1 <= 2 and 0 <= a2 <= 2 and 0 <= a3 <= 2
+  require: 0 <= b0 <= 2 and 0 <= b1 <= 2 and 0 <= b2 <= 2 and 0 <= b3 <= 2 and 0 <= ao <= 2 and 0 <= bo <= 2
+  """
+  fn, shape = sigs.SIGS[sig]
+  F = shape.p + shape.k
+  UNSET = ('unset',)
+
+  def conc(t):
+    for c in range(3):
+      if t == c:
+        return c
+    return 0
+
+  def side(modes, mo):
+    cfg = fdl.Config(fn)
+    eff = []
+    for i in range(F):
+      has_default = i >= F - shape.d
+      default = 100 + i if has_default else UNSET
+      m = conc(modes[i])
+      if m == 0:
+        eff.append(default)
+      elif m == 1:
+        val = default if has_default else v
+        cfg[i] = val
+        eff.append(val)
+      else:
+        cfg[i] = v + 7 + i
+        eff.append(v + 7 + i)
+    if shape.ko:
+      default = 200 if shape.dk else UNSET
+      m = conc(mo)
+      if m == 0:
+        eff.append(default)
+      elif m == 1:
+        val = default if shape.dk else v
+        cfg.o0 = val
+        eff.append(val)
+      else:
+        cfg.o0 = v + 3
+        eff.append(v + 3)
+    return cfg, eff
+
+  a, ea = side([a0, a1, a2, a3], ao)
+  b, eb = side([b0, b1, b2, b3], bo)
+  want = len(ea) == len(eb)
+  for x, y in zip(ea, eb):
+    if x is UNSET or y is UNSET:
+      if x is not y:
+        want = False
+    elif x != y:
+      want = False
+  note('c06a', tuple(sorted(map(str, a.__arguments__))), tuple(sorted(map(str, b.__arguments__))))
+  try:
+    ab, ba, nab = (a == b), (b == a), (a != b)
+  except Exception:  # pylint: disable=broad-except
+    return False
+  return ab == want and ba == want and nab == (not want)
+
+
 def _nested_const_tuple():
   """A tuple of constant tuples built at run time (never the compiler's interned constant)."""
   return tuple([tuple([1, 1]), tuple([2, 2]), 'k'])
@@ -385,6 +450,20 @@ def obligations(tier, seed):
       cubes.append(Cube(f'r{r1}_{r2}_w{w}', [], fix, est=100 if 'ls' not in fix else 36))
   sigl = list(range(len(sigs.SIGS))) if tier != 'quick' else sorted(rng.sample(range(len(sigs.SIGS)), 100))
   dcubes = [Cube(f's{s}', [], dict(sig=s), est=64) for s in sigl if sigs.SIGS[s][1].d or sigs.SIGS[s][1].dk]
+  acubes = []
+  for sidx in (sigl if tier != 'quick' else sigl[::5]):
+    shp = sigs.SIGS[sidx][1]
+    if shp.p + shp.k < 2 or not shp.d:
+      continue
+    fix = dict(sig=sidx)
+    for j in range(shp.p + shp.k, 4):
+      fix[f'a{j}'] = 0
+      fix[f'b{j}'] = 0
+    if not shp.ko:
+      fix.update(ao=0, bo=0)
+    if tier == 'quick':
+      fix.update(a0=1, b0=1)
+    acubes.append(Cube(f's{sidx}', [], fix, est=81 * 9))
   kcubes = []
   for p in range(8):
     for o in range(3):
@@ -419,6 +498,8 @@ def obligations(tier, seed):
       Obligation('c06_keys', c06_keys, kcubes, timeout=t, path_timeout=30,
                  smoke=dict(pat=4, order=1, i1=1, i2=2, i3=3, s1='a', s2='b', s3='c', v=1),
                  extra_smokes=[dict(pat=5, order=2, i1=0, i2=0, i3=3, s1='', s2='b', s3='\x00', v=1)]),
+      Obligation('c06_asym', c06_asym, acubes, timeout=t, path_timeout=30,
+                 smoke=dict(sig=sigs.sig_index(1, 2, 0, 1, 0, 2, 1), a0=1, a1=1, a2=0, a3=0, b0=1, b1=0, b2=2, b3=0, ao=1, bo=0, v=5)),
       Obligation('c06_defaults', c06_defaults, dcubes, timeout=t, path_timeout=30,
                  smoke=dict(sig=sigs.sig_index(1, 1, 1, 1, 0, 1, 1), s0=True, s1=False, s2=False, s3=False, so=False,
                             e0=False, e1=True, e2=False, e3=False, eo=True, nva=1, v=5)),
